@@ -14,6 +14,11 @@ import CLModel.Proofs.C10TOrder
 import CLModel.Proofs.C10TContent
 import CLModel.Proofs.C10TText
 import CLModel.Proofs.C10TSummary
+import CLModel.Compare.Projects
+import CLModel.Proofs.C10Proj
+import CLModel.Compare.ProjectsPipe
+import CLModel.Proofs.C10ProjPipe
+import CLModel.Proofs.C10ProjQuiet
 namespace C10
 open TreeM ObsM
 
@@ -667,5 +672,603 @@ example : ((getMod (Tree.empty : Tree Nat) [[98], [120]] (· ++ [0]) >>= (getMod
     = some ([[[98], [120]], [[97]], [[97], [121]]],
             [([[[97]]], [2]), ([[[97]], [[121]]], [1]), ([[[98], [120]]], [0])])) := by
   decide +kernel
+
+/-! ## the orchestration layer: `compareProjects`, `CompareLocales.handle`, `extract_positionals`
+
+Model: `ProjM` (CLModel/Compare/Projects.lean); helpers in CLModel/Proofs/C10Proj.lean (namespace `C10P`).
+`World` collects what `compareProjects` reads from outside — the `ProjectFiles` enumeration per locale, `os.path.exists`,
+the parsers — as INPUTS; every theorem below holds for ALL worlds (all project trees, all file contents), all project
+lists, all arguments.  The only contract asked of an input is `C10P.CompareRuns w`: whatever `ContentComparer.compare`
+does to the observers behind its `getParser` gate is a sequence of notifications / `updateStats` calls about the two
+files it was called for, none of them a `missingFile`/`obsoleteFile`, the stats without an `errors` entry. -/
+
+open ProjM in
+/-- the three-way decision of the loop body is a function of the two `os.path.exists` answers: `add` iff the localized
+    file does not exist, otherwise `remove` iff the reference does not exist, otherwise `compare`; with the localized
+    file present and no reference path (`None`) `os.path.exists(None)` raises `TypeError`. -/
+theorem three_way_decision (w : World) (it : Item) :
+    (decide3 w it = some .add ↔ w.pathExists it.l10n = false) ∧
+      (decide3 w it = some .remove ↔ w.pathExists it.l10n = true ∧ ∃ r, it.ref = some r ∧ w.pathExists r = false) ∧
+      (decide3 w it = some .compare ↔ w.pathExists it.l10n = true ∧ ∃ r, it.ref = some r ∧ w.pathExists r = true) ∧
+      (decide3 w it = none ↔ w.pathExists it.l10n = true ∧ it.ref = none) := by
+  unfold decide3
+  cases hl : w.pathExists it.l10n <;> cases hr : it.ref with
+  | none => simp
+  | some r => cases hx : w.pathExists r <;> simp [hx]
+
+open ProjM in
+/-- EVERY ENUMERATED FILE CAUSES EXACTLY ONE OF add / remove / compare.  When `compareProjects` returns, the
+    `ContentComparer` methods it called are, in order, one per tuple of `list(ProjectFiles(locale, …))` for the locales
+    in `sorted(all_locales)` — called with the paths, merge path and tests of that tuple — and which method it is
+    follows from the two `os.path.exists` answers (`three_way_decision`).  The reference `File` has no locale, both
+    `File`s have the same module, and the localized `File` carries the locale of the outer loop — or
+    `REFERENCE_LOCALE` when that is `None`. -/
+theorem projects_one_call_per_file (w : World) (projects : List Project) (a : Args) (junk : Nat) (st : St)
+    (h : compareProjects w projects a junk = .ok st) :
+    ∃ locales, sortedLocales (allLocales projects a) = .ok locales ∧
+      st.calls.map C10P.Call.item = locales.flatMap (C10P.itemsOf w) ∧
+      ∀ c ∈ st.calls, decide3 w (C10P.Call.item c) = some c.kind ∧ c.ref.locale = none ∧ c.ref.module = c.l10n.module ∧
+        ∃ loc ∈ locales, c.l10n.locale = some (localeAfter loc) := by
+  unfold compareProjects at h
+  simp only at h
+  split at h
+  · simp [fail] at h
+  · rename_i locales hs
+    obtain ⟨cs, c1, c2, c3⟩ := C10P.localeLoop_calls a locales _ st h
+    simp only [List.nil_append] at c1
+    refine ⟨locales, hs, by rw [c1, c2], ?_⟩
+    intro c hc
+    rw [c1] at hc
+    obtain ⟨loc, hl, ⟨k, l, r, m⟩, _⟩ := c3 c hc
+    exact ⟨k, r, m, loc, hl, l⟩
+
+open ProjM in
+/-- PER-FILE INDEPENDENCE OF THE CALLS.  Every call of a run is `mkCall` of ITS OWN tuple: the two `File` objects —
+    `module`, the path `fpath` relative to the l10n base or to the prefix of the first matcher that matches THIS
+    localized path —, the merge path, the tests and the method are a function of that tuple, of the matchers of the
+    `ProjectFiles` object of its locale, of the locale and of the two `os.path.exists` answers; nothing carries over
+    from the files handled before it (`module = None` is reset at the top of the loop body; the one variable that
+    does carry over, `locale`, changes once, from `None` to `REFERENCE_LOCALE`). -/
+theorem projects_calls_per_file (w : World) (projects : List Project) (a : Args) (junk : Nat) (st : St)
+    (h : compareProjects w projects a junk = .ok st) :
+    ∀ c ∈ st.calls, ∃ loc files, w.projectFiles loc = .ok files ∧
+      mkCall w a.l10nBaseDir files (localeAfter loc) (C10P.Call.item c) = .ok c := by
+  unfold compareProjects at h
+  simp only at h
+  split at h
+  · simp [fail] at h
+  · rename_i locales hs
+    obtain ⟨cs, c1, _, c3⟩ := C10P.localeLoop_calls a locales _ st h
+    simp only [List.nil_append] at c1
+    intro c hc
+    rw [c1] at hc
+    obtain ⟨loc, _, _, files, hf, hm⟩ := c3 c hc
+    exact ⟨loc, files, hf, hm⟩
+
+open ProjM in
+/-- `compareProjects` REFINES A HISTORY.  Everything it does to the observers is `ObserverList.run` of one sequence of
+    events on the list `ObserverList(quiet)` + one `Observer(quiet, filter)` per project: the concatenation, call by
+    call, of
+    * `remove`: the one notification `obsoleteFile` for the localized `File`;
+    * `add`: `missingFile` for the localized `File`, then — unless every project filter ignores it or there is no
+      parser — `updateStats(l10n, {"missing": n})`, `updateStats(l10n, {"missing_w": w})` for the reference's n
+      entities / w words, or one `error` for the reference `File` if reading it failed (`C10P.addEvents`);
+    * `compare`: events about its two files (`C10P.CompareRuns`).
+    Hence every project observer ends as if it alone had been fed that whole history (`list_own_as_observer`), and
+    every theorem above about histories applies to a run of `compareProjects`. -/
+theorem projects_refine_history (w : World) (hw : C10P.CompareRuns w) (projects : List Project) (a : Args) (junk : Nat)
+    (st : St) (h : compareProjects w projects a junk = .ok st) :
+    ∃ tr : C10P.Trace, st.calls = tr.map (·.1) ∧
+      (ObsList.init a.quiet (mkObservers projects a)).run (tr.flatMap (·.2)) = .ok st.obs ∧
+      (∀ p ∈ tr, C10P.CallSpec w ((mkObservers projects a).map (·.filter)) p.1 p.2) ∧
+      (∀ p ∈ tr, ∀ ev ∈ p.2, ev.file = p.1.l10n ∨ ev.file = p.1.ref) ∧
+      All₂ (fun o o' => o.run (tr.flatMap (·.2)) = .ok o') (mkObservers projects a) st.obs.observers := by
+  unfold compareProjects at h
+  simp only at h
+  split at h
+  · simp [fail] at h
+  · rename_i locales hs
+    obtain ⟨tr, t1, t2, t3, _, _⟩ := C10P.localeLoop_run hw a locales _ st h
+    simp only [List.nil_append] at t1
+    refine ⟨tr, t1, t2, t3, fun p hp => C10P.callSpec_files (t3 p hp), ?_⟩
+    exact (list_own_as_observer a.quiet (mkObservers projects a) _ st.obs t2).2
+
+/-- EACH MISSING FILE / OBSOLETE FILE EVENT EXACTLY ONCE.  In the history of a run the `missingFile` / `obsoleteFile`
+    notifications are exactly: one `missingFile` for the localized `File` of every `add` call, one `obsoleteFile` for that
+    of every `remove` call, in call order, none from `compare` — so by `projects_one_call_per_file` one per enumerated
+    tuple whose localized file (resp. reference file) does not exist, and by `projects_refine_history` /
+    `list_fanout` each of them is handed to every project observer exactly once (and counted by the list iff not all
+    ignore it). -/
+theorem projects_file_events_once (w : ProjM.World) (flts : List (Option Filter)) (tr : C10P.Trace)
+    (h : ∀ p ∈ tr, C10P.CallSpec w flts p.1 p.2) :
+    (tr.flatMap (·.2)).filter C10P.isFileEv = tr.filterMap (fun p => C10P.fileEvOf p.1) ∧
+      (∀ c, C10P.fileEvOf c = match c.kind with
+        | .add => some (.notify .missingFile c.l10n .none)
+        | .remove => some (.notify .obsoleteFile c.l10n .none)
+        | .compare => none) :=
+  ⟨C10P.trace_fileEvents tr h, fun _ => rfl⟩
+
+open ProjM in
+/-- THE SUMMARIES OF A RUN.  After `compareProjects` every number of the union observer's summary (the `ObserverList`
+    itself) is the count, over the history of the run, of the `error`/`warning` notifications not ignored by all project
+    filters plus ALL stats for that locale and key; every number of a project observer is the same count with its own
+    filter — the filter of its project, or none in validation mode (`C10P.filtersOf`).  (`summary_counts`,
+    `list_summary_counts` instantiated with the history of `projects_refine_history`.) -/
+theorem projects_summary_counts (w : World) (hw : C10P.CompareRuns w) (projects : List Project) (a : Args) (junk : Nat)
+    (st : St) (h : compareProjects w projects a junk = .ok st) :
+    ∃ hist : List Ev, (ObsList.init a.quiet (mkObservers projects a)).run hist = .ok st.obs ∧
+      (∀ loc key, getCount st.obs.own.summary loc key = countSpec (ignList (C10P.filtersOf projects a)) loc key hist) ∧
+      All₂ (fun flt o' => ∀ loc key, getCount o'.summary loc key = countSpec (ignObs flt) loc key hist)
+        (C10P.filtersOf projects a) st.obs.observers := by
+  obtain ⟨tr, _, t2, _, _, t5⟩ := projects_refine_history w hw projects a junk st h
+  refine ⟨_, t2, fun loc key => ?_, ?_⟩
+  · rw [list_summary_counts a.quiet _ _ st.obs t2 loc key, C10P.mkObservers_filters]
+  · rw [C10P.mkObservers_eq] at t5
+    exact All₂.imp (fun flt o' hr loc key => summary_counts a.quiet flt _ o' hr loc key) (C10P.All₂.of_map_left _ t5)
+
+open ProjM in
+/-- EXIT STATUS END TO END.  Whenever `CompareLocales.handle` returns (no `SystemExit`, no exception), the value it
+    returns is 1 iff `return_zero` is off and the union observer has counted at least one error during the run of
+    `compareProjects` — equivalently at least one project observer has, so the JSON output (project observers) and the
+    exit status agree — and it is 0 otherwise.  For every world whose `compare` keeps the contract `C10P.CompareRuns`
+    (in particular: no `errors` entry in its stats, the excluded point of `exit_iff_errors`). -/
+theorem handle_exit_iff (hw : HWorld) (h : HArgs)
+    (hcr : ∀ cfgs env full locs projects w, hw.loadConfigs cfgs env full locs = .ok (projects, w) → C10P.CompareRuns w)
+    (rv : Nat) (hret : (handle hw h).outcome = .returned rv) :
+    ∃ st, (handle hw h).final = some st ∧
+      (rv = 1 ↔ h.returnZero = false ∧ 0 < totalErrors st.obs.own.summary) ∧
+      (0 < totalErrors st.obs.own.summary ↔ ∃ o ∈ st.obs.observers, 0 < totalErrors o.summary) ∧
+      (rv = 0 ∨ rv = 1) := by
+  obtain ⟨cfgs, base, locales, projects, w, st, _, hload, hcp, heq⟩ := C10P.handle_returned hret
+  rw [heq] at hret ⊢
+  obtain ⟨r1, r2, _, _⟩ := C10P.report_returned hret
+  have hw' := hcr _ _ _ _ _ _ hload
+  obtain ⟨tr, _, t2, t3, _, _⟩ := projects_refine_history w hw' projects _ hw.junk st hcp
+  have hn : NoErrStats (tr.flatMap (·.2)) := C10P.trace_noErrStats tr t3
+  refine ⟨st, r2, ?_, ?_, ?_⟩
+  · rw [r1]
+    exact exit_iff_errors _ _ _ st.obs h.returnZero t2 hn.pos
+  · rw [C10P.mkObservers_eq] at t2
+    exact list_errors_iff_observers _ _ _ st.obs t2 hn
+  · rw [r1]
+    simp only [exitStatus]
+    split <;> simp
+
+open ProjM in
+/-- WHAT `handle` PRINTS AND DUMPS.  Whenever `handle` returns: with `--json -` nothing is printed after the lines
+    `compareProjects` printed (merge / clobber messages); otherwise, after those lines, `print(details)` iff the details
+    text is not empty, then IFF THERE IS MORE THAN ONE CONFIG a blank line (only after details), `Summaries for`, one
+    line `  <config path>` per config file in command line order and the line about the union, then
+    `print(observers.serializeSummaries())` (`ProjM.headBlocks`, spelled out in the last clause).  With `--json` the data
+    is one `toJSON()` — summary and details — per PROJECT observer, in project order, to stdout iff the value is `-`. -/
+theorem handle_report_blocks (hw : HWorld) (h : HArgs) (rv : Nat) (hret : (handle hw h).outcome = .returned rv) :
+    ∃ cfgs base locales projects w st,
+      extractPositionals hw.fs hw.cwd h.validate h.configPaths h.l10nBaseDir h.locales = .ok (cfgs, base, locales) ∧
+      hw.loadConfigs cfgs (configEnv base h.defines) h.full locales = .ok (projects, w) ∧
+      (handle hw h).final = some st ∧
+      (handle hw h).json = (match h.json with
+        | some j => some (j == Gen.Cmd.jsonStdout,
+            st.obs.observers.map (fun o => ({ summary := o.summary, details := toJSON o.details } : ObsJson)))
+        | none => none) ∧
+      ((h.json = some Gen.Cmd.jsonStdout ∧ (handle hw h).stdout = st.out) ∨
+       (h.json ≠ some Gen.Cmd.jsonStdout ∧ ∃ details summaries, serializeDetails st.obs.own = .ok details ∧
+          serializeSummaries st.obs = .ok summaries ∧
+          (handle hw h).stdout = st.out ++ headBlocks cfgs projects.length details ++ [summaries])) ∧
+      (∀ (cfgs : List Text) (n : Nat) (details : Text), headBlocks cfgs n details =
+        (if details ≠ [] then [details] else []) ++
+        (if n > 1 then (if details ≠ [] then [Gen.Cmd.blankLine] else []) ++ [Gen.Cmd.summariesFor] ++
+            cfgs.map (Gen.Cmd.configIndent ++ ·) ++ [Gen.Cmd.unionLine] else [])) := by
+  obtain ⟨cfgs, base, locales, projects, w, st, hpos, hload, _, heq⟩ := C10P.handle_returned hret
+  rw [heq] at hret ⊢
+  obtain ⟨_, r2, r3, r4⟩ := C10P.report_returned hret
+  refine ⟨cfgs, base, locales, projects, w, st, hpos, hload, r2, r3, r4, ?_⟩
+  intro cfgs n details
+  unfold headBlocks
+  cases details <;> simp
+
+open ProjM in
+/-- VALIDATION MODE.  If `None in locales` (what `--validate` passes: `[None]`) and `compareProjects` returns, then
+    `locales` holds nothing but `None` (a `str` next to it makes `sorted` raise `TypeError`), the filter of EVERY project
+    observer is disabled, and the locale every localized `File` displays — in details paths of files with a module, in
+    the summaries — is `REFERENCE_LOCALE` (the loop variable `locale` is re-assigned inside the inner loop, once, and
+    stays).  Otherwise every project observer filters with its project's `filter` and every localized `File` carries
+    one of the locales of `all_locales`. -/
+theorem projects_validation (w : World) (projects : List Project) (a : Args) (junk : Nat) (st : St)
+    (h : compareProjects w projects a junk = .ok st) :
+    (none ∈ a.locales →
+      (∀ x ∈ a.locales, x = none) ∧ (mkObservers projects a).map (·.filter) = projects.map (fun _ => none) ∧
+      ∀ c ∈ st.calls, c.l10n.locale = some Gen.Cmd.referenceLocale) ∧
+    (none ∉ a.locales →
+      (mkObservers projects a).map (·.filter) = projects.map (fun p => some p.filter) ∧
+      ∀ c ∈ st.calls, ∃ l, some l ∈ allLocales projects a ∧ c.l10n.locale = some l) := by
+  obtain ⟨locales, hs, _, hc⟩ := projects_one_call_per_file w projects a junk st h
+  rw [C10P.mkObservers_filters]
+  constructor
+  · intro hv
+    have hcont : a.locales.contains none = true := by simpa using hv
+    rcases C10P.sortedLocales_ok hs with ⟨hn, _⟩ | ⟨_, hall, hsorted⟩
+    · exact absurd (by simp [allLocales, hv]) hn
+    · refine ⟨fun x hx => hall x (by simp [allLocales, hx]), by simp [C10P.filtersOf, hv], ?_⟩
+      intro c hc'
+      obtain ⟨_, _, _, loc, hl, e⟩ := hc c hc'
+      rw [hsorted] at hl
+      simp only [List.mem_singleton] at hl
+      subst hl
+      exact e
+  · intro hv
+    have hcont : a.locales.contains none = false := by simpa using hv
+    refine ⟨by simp [C10P.filtersOf, hv], ?_⟩
+    intro c hc'
+    obtain ⟨_, _, _, loc, hl, e⟩ := hc c hc'
+    rcases C10P.sortedLocales_ok hs with ⟨_, hsorted⟩ | ⟨hn, hall, _⟩
+    · rw [hsorted] at hl
+      obtain ⟨t, ht, rfl⟩ := List.mem_map.1 hl
+      have := (C10P.mem_sortedSet _ t).1 ht
+      simp only [List.mem_filterMap, id] at this
+      obtain ⟨x, hx, rfl⟩ := this
+      exact ⟨t, hx, e⟩
+    · exfalso
+      apply hv
+      have : none ∈ allLocales projects a := hn
+      simp only [allLocales, List.mem_append] at this
+      rcases this with h1 | h2
+      · exact h1
+      · split at h2
+        · simp at h2
+        · cases h2
+
+open ProjM in
+/-- INDEPENDENT OF THE ORDER OF THE `locales` ARGUMENT.  Two argument lists with the same members — any order, any
+    repetitions — give the same result: observers, printed lines, calls, junk counter, or the same exception
+    (`all_locales` is a set, iterated in `sorted` order; `None in locales` and `not locales` only ask for membership). -/
+theorem projects_locale_order (w : World) (projects : List Project) (a a' : Args) (junk : Nat)
+    (hm : ∀ x, x ∈ a.locales ↔ x ∈ a'.locales)
+    (hrest : a.l10nBaseDir = a'.l10nBaseDir ∧ a.mergeStage = a'.mergeStage ∧ a.clobberMerge = a'.clobberMerge ∧
+      a.quiet = a'.quiet) :
+    compareProjects w projects a junk = compareProjects w projects a' junk := by
+  obtain ⟨a_loc, a_base, a_merge, a_cl, a_q⟩ := a
+  obtain ⟨b_loc, b_base, b_merge, b_cl, b_q⟩ := a'
+  simp only at hm hrest
+  obtain ⟨rfl, rfl, rfl, rfl⟩ := hrest
+  have hcont : a_loc.contains none = b_loc.contains none := by
+    rw [Bool.eq_iff_iff]; simp [hm none]
+  have hemp : a_loc.isEmpty = b_loc.isEmpty := by
+    rw [Bool.eq_iff_iff]
+    simp only [List.isEmpty_iff]
+    constructor
+    · intro e
+      apply List.eq_nil_iff_forall_not_mem.2
+      intro x hx
+      have := (hm x).2 hx
+      rw [e] at this; cases this
+    · intro e
+      apply List.eq_nil_iff_forall_not_mem.2
+      intro x hx
+      have := (hm x).1 hx
+      rw [e] at this; cases this
+  have hobs : mkObservers projects ⟨a_loc, a_base, a_merge, a_cl, a_q⟩ = mkObservers projects ⟨b_loc, a_base, a_merge, a_cl, a_q⟩ := by
+    simp only [mkObservers, hcont]
+  have hsort : sortedLocales (allLocales projects ⟨a_loc, a_base, a_merge, a_cl, a_q⟩)
+      = sortedLocales (allLocales projects ⟨b_loc, a_base, a_merge, a_cl, a_q⟩) := by
+    apply C10P.sortedLocales_congr
+    intro x
+    simp only [allLocales, List.mem_append, hemp, hm x]
+  have hloop : ∀ ls st, localeLoop w ⟨a_loc, a_base, a_merge, a_cl, a_q⟩ ls st = localeLoop w ⟨b_loc, a_base, a_merge, a_cl, a_q⟩ ls st := by
+    intro ls
+    induction ls with
+    | nil => intro st; rfl
+    | cons l rest ih =>
+      intro st
+      simp only [localeLoop]
+      cases w.projectFiles l with
+      | error e => rfl
+      | ok files =>
+        simp only
+        have hc : clobber ⟨a_loc, a_base, a_merge, a_cl, a_q⟩ files st = clobber ⟨b_loc, a_base, a_merge, a_cl, a_q⟩ files st := rfl
+        rw [hc]
+        cases clobber ⟨b_loc, a_base, a_merge, a_cl, a_q⟩ files st with
+        | error e => rfl
+        | ok st1 =>
+          simp only
+          cases itemLoop w a_base files files.items (l, st1) with
+          | error e => rfl
+          | ok p => exact ih _
+  unfold compareProjects
+  simp only [hobs, hsort]
+  split
+  · rfl
+  · exact hloop _ _
+
+open ProjM in
+/-- `extract_positionals` SPLITS AT THE FIRST DIRECTORY.  If it returns `(config_paths, l10n_base_dir, locales)`, the
+    arguments `config_paths + [l10n_base_dir] + locales` as argparse delivered them are `configs ++ [dir] ++ rest` where no
+    element of `configs` is a directory, every one is an existing file, `dir` is a directory — the FIRST one —,
+    `configs` is not empty, the base is `abspath(dir)`, and the locales are `rest`, or `[None]` with `--validate`
+    (whatever `rest` is).  Otherwise it ends in `parser.error`: "no configuration file given" iff the first argument
+    is a directory, else "config file … not found" for the first non-file before the first directory, else
+    "l10n-base-dir not found" iff no argument is a directory. -/
+theorem extract_positionals_spec (fs : ArgFs) (cwd : Path) (validate : Bool) (configPaths : List Text)
+    (l10nBaseDir : Text) (locales : List Text) :
+    (∀ cfgs base locs, extractPositionals fs cwd validate configPaths l10nBaseDir locales = .ok (cfgs, base, locs) →
+      ∃ dir rest, configPaths ++ [l10nBaseDir] ++ locales = cfgs ++ dir :: rest ∧ cfgs ≠ [] ∧
+        (∀ c ∈ cfgs, fs.isdir c = false ∧ fs.isfile c = true) ∧
+        fs.isdir dir = true ∧ base = abspath cwd dir ∧ locs = (if validate then [none] else rest.map some)) ∧
+    (∀ msg, extractPositionals fs cwd validate configPaths l10nBaseDir locales = .error msg →
+      (msg = fill Gen.Cmd.errNoConfig [] ∧ ∃ x xs, configPaths ++ [l10nBaseDir] ++ locales = x :: xs ∧ fs.isdir x = true) ∨
+      (∃ cf ∈ (configPaths ++ [l10nBaseDir] ++ locales).takeWhile (fun x => !fs.isdir x),
+        fs.isfile cf = false ∧ msg = fill Gen.Cmd.errConfigNotFound cf) ∨
+      (msg = fill Gen.Cmd.errNoBase [] ∧ ∀ x ∈ configPaths ++ [l10nBaseDir] ++ locales, fs.isdir x = false)) :=
+  ⟨fun _ _ _ h => C10P.extract_ok h, fun _ h => C10P.extract_err h⟩
+
+/-! ### the composed model: orchestration + the pipeline model of `ContentComparer.compare` (C05)
+
+`ProjPipe.worldOf` (CLModel/Compare/ProjectsPipe.lean) is the world the driver operation `c10.handle` runs and the
+correspondence diffs against the real `CompareLocales.handle`: `compare` behind its `getParser` gate is `Pipe.compareParsed`
+on the parsed contents of the two files.  For it the contract `CompareRuns` is a THEOREM, so the theorems above hold
+for it without any assumption on `compare`. -/
+
+/-- the composed pipeline model of `ContentComparer.compare` keeps the contract: its effect on the observers is a run of
+    `error`/`warning`/`missingEntity`/`obsoleteEntity` notifications for the localized file and one `updateStats` without an
+    `errors` entry (or the single `error` of a failed `readFile`, for that file) — for ALL file contents -/
+theorem composed_world_contract (cwd : ProjM.Path) (enums : List (Option Text × Except ProjM.PyErr ProjM.Files))
+    (existing : List ProjM.Path) (md : List (ProjM.Path × Text)) (cs : List (ProjM.Path × ProjPipe.Content)) :
+    C10P.CompareRuns (ProjPipe.worldOf cwd enums existing md cs) :=
+  C10P.worldOf_compareRuns cwd enums existing md cs
+
+open ProjM in
+/-- EXIT STATUS END TO END for the composed model (no assumption on `compare`): from the command line and the file
+    contents to the value `handle` returns — 1 iff `return_zero` is off and an error was counted by the union observer,
+    iff by some project observer. -/
+theorem composed_exit_iff (hw : HWorld) (h : HArgs)
+    (hcomp : ∀ cfgs env full locs projects w, hw.loadConfigs cfgs env full locs = .ok (projects, w) →
+      ∃ cwd enums existing md cs, w = ProjPipe.worldOf cwd enums existing md cs)
+    (rv : Nat) (hret : (handle hw h).outcome = .returned rv) :
+    ∃ st, (handle hw h).final = some st ∧
+      (rv = 1 ↔ h.returnZero = false ∧ 0 < totalErrors st.obs.own.summary) ∧
+      (0 < totalErrors st.obs.own.summary ↔ ∃ o ∈ st.obs.observers, 0 < totalErrors o.summary) ∧
+      (rv = 0 ∨ rv = 1) := by
+  apply handle_exit_iff hw h _ rv hret
+  intro cfgs env full locs projects w hl
+  obtain ⟨cwd, enums, existing, md, cs, rfl⟩ := hcomp cfgs env full locs projects w hl
+  exact composed_world_contract cwd enums existing md cs
+
+open ProjM in
+/-- the run of the composed model refines a history (`projects_refine_history` without its hypothesis) -/
+theorem composed_refine_history (cwd : Path) (enums : List (Option Text × Except ProjM.PyErr Files))
+    (existing : List Path) (md : List (Path × Text)) (cs : List (Path × ProjPipe.Content))
+    (projects : List Project) (a : Args) (junk : Nat) (st : St)
+    (h : compareProjects (ProjPipe.worldOf cwd enums existing md cs) projects a junk = .ok st) :
+    ∃ tr : C10P.Trace, st.calls = tr.map (·.1) ∧
+      (ObsList.init a.quiet (mkObservers projects a)).run (tr.flatMap (·.2)) = .ok st.obs ∧
+      (tr.flatMap (·.2)).filter C10P.isFileEv = tr.filterMap (fun p => C10P.fileEvOf p.1) ∧
+      NoErrStats (tr.flatMap (·.2)) := by
+  obtain ⟨tr, t1, t2, t3, _, _⟩ :=
+    projects_refine_history _ (composed_world_contract cwd enums existing md cs) projects a junk st h
+  exact ⟨tr, t1, t2, C10P.trace_fileEvents tr t3, C10P.trace_noErrStats tr t3⟩
+
+open ProjM in
+/-- QUIET HIDES ONLY DETAILS, END TO END.  Two runs of `compareProjects` that differ in the quiet level only (`q ≤ q'`)
+    make the same `ContentComparer` calls, print the same lines and spend the same junk ids; every summary number and
+    the error flag of the union observer and of every project observer coincide — hence the exit status —, and per
+    path the details at the higher level are a sublist of those at the lower level.  The control flow of the whole run
+    (which entity is "missing" and which merely "reported", whether a missing file is counted) only ever looks at
+    return values of `notify`, and these are functions of the project filters.
+    For every world whose `compare` has that property (`C10P.CompareSync`: started on two observer lists with the same
+    filters it raises the same events); `composed_world_quiet_blind` proves it for the composed pipeline model. -/
+theorem projects_quiet_hides_only_details (w : World) (hw : C10P.CompareSync w) (projects : List Project) (a : Args)
+    (q q' : Nat) (hq : q ≤ q') (junk : Nat) (st1 st2 : St)
+    (h1 : compareProjects w projects { a with quiet := q } junk = .ok st1)
+    (h2 : compareProjects w projects { a with quiet := q' } junk = .ok st2) :
+    st1.calls = st2.calls ∧ st1.out = st2.out ∧ st1.junk = st2.junk ∧
+      st1.obs.own.summary = st2.obs.own.summary ∧ st1.obs.own.error = st2.obs.own.error ∧
+      (∀ rz, exitStatus rz st1.obs = exitStatus rz st2.obs) ∧
+      (∀ p, ((find st2.obs.own.details p).getD []).Sublist ((find st1.obs.own.details p).getD [])) ∧
+      All₂ (fun o1 o2 => o1.summary = o2.summary ∧ o1.error = o2.error ∧
+          ∀ p, ((find o2.details p).getD []).Sublist ((find o1.details p).getD []))
+        st1.obs.observers st2.obs.observers := by
+  obtain ⟨hsim, evs, r1, r2⟩ := C10P.compareProjects_sync hw projects a q q' junk st1 st2 h1 h2
+  obtain ⟨o1, a1⟩ := list_own_as_observer q _ evs st1.obs r1
+  obtain ⟨o2, a2⟩ := list_own_as_observer q' _ evs st2.obs r2
+  have hfl : ((C10P.filtersOf projects a).map (Obs.init q)).map (·.filter)
+      = ((C10P.filtersOf projects a).map (Obs.init q')).map (·.filter) := by
+    simp only [List.map_map]
+    apply List.map_congr_left
+    intro x _
+    rfl
+  rw [hfl] at o1
+  obtain ⟨s1, s2⟩ := quiet_summary_inv q q' none _ _ _ o1 o2
+  refine ⟨hsim.calls, hsim.out, hsim.junk, s1, s2, ?_, ?_, ?_⟩
+  · intro rz
+    simp only [exitStatus, s2]
+  · intro p
+    exact quiet_monotone q q' hq none _ _ _ o1 o2 p
+  · have b1 := C10P.All₂.of_map_left _ a1
+    have b2 := C10P.All₂.of_map_left _ a2
+    apply All₂.imp _ (C10P.All₂.join b1 b2)
+    rintro x y ⟨flt, hx, hy⟩
+    obtain ⟨t1, t2⟩ := quiet_summary_inv q q' flt _ _ _ hx hy
+    exact ⟨t1, t2, fun p => quiet_monotone q q' hq flt _ _ _ hx hy p⟩
+
+/-- the composed pipeline model of `ContentComparer.compare` is blind to the quiet level: on two observer lists with the
+    same project filters it raises the same events, prints the same lines, spends the same junk ids — for ALL file
+    contents.  So `projects_quiet_hides_only_details` holds for the composed model without assumption. -/
+theorem composed_world_quiet_blind (cwd : ProjM.Path) (enums : List (Option Text × Except ProjM.PyErr ProjM.Files))
+    (existing : List ProjM.Path) (md : List (ProjM.Path × Text)) (cs : List (ProjM.Path × ProjPipe.Content)) :
+    C10P.CompareSync (ProjPipe.worldOf cwd enums existing md cs) :=
+  C10P.worldOf_compareSync cwd enums existing md cs
+
+/-! ### non-vacuity and negation witnesses for the orchestration layer -/
+
+section ProjectsExamples
+open ProjM
+
+/-- `/l/de/a` + `/r/a` (both exist: compare), `/l/de/gone` (no reference: remove), `/r/new` (not localized: add);
+    nothing for `fr` -/
+def exEnum : Option Text → Except ProjM.PyErr Files
+  | some [100, 101] => .ok {
+      matchers := [{ l10nMatch := fun _ => true, l10nPrefix := ofString "/l/de/", module := none, hasMerge := false }],
+      items := [{ l10n := ofString "/l/de/a", ref := some (ofString "/r/a"), merge := none, tests := [] },
+                { l10n := ofString "/l/de/gone", ref := some (ofString "/r/gone"), merge := none, tests := [] },
+                { l10n := ofString "/l/de/new", ref := some (ofString "/r/new"), merge := none, tests := [] }] }
+  | _ => .ok { matchers := [], items := [] }
+
+/-- a world whose `compare` reports two changed strings per file and whose reference files have 3 entities / 5 words -/
+def exWorld : World where
+  cwd := [47]
+  projectFiles := exEnum
+  pathExists := fun p => [ofString "/l/de/a", ofString "/r/a", ofString "/l/de/gone", ofString "/r/new"].contains p
+  parserCaps := fun _ => some 6
+  parseRef := fun _ _ j => (.ok (3, 5), j)
+  compareBody := fun c j l => .ok (l.updateStats c.l10n [(.changed, 2)], [], j)
+  makeMergeDir := fun _ => none
+
+/-- a project that knows `de` and `fr` and ignores the file `de/new` -/
+def exProject : Project where
+  filter := fun f _ => if f.file == ofString "de/new" then .ignore else .error
+  allLocales := [[102, 114], [100, 101]]
+
+/-- the contract `CompareRuns` is satisfiable (and holds for `exWorld`) -/
+example : C10P.CompareRuns exWorld := by
+  intro c junk l r h
+  simp only [exWorld, Except.ok.injEq] at h
+  subst h
+  refine ⟨[.stats c.l10n [(.changed, 2)]], C10P.stats_run _ _ _, ?_, ?_⟩
+  · intro ev hev
+    simp only [List.mem_singleton] at hev
+    subst hev
+    exact ⟨Or.inl rfl, rfl⟩
+  · intro ev hev
+    simp only [List.mem_singleton] at hev
+    subst hev
+    intro kv hkv
+    simp only [List.mem_singleton] at hkv
+    subst hkv
+    decide
+
+/-- the model computes on it: locales sorted (`de` before `fr`), one call per enumerated file with the method the two
+    `exists` answers dictate, paths relative to the l10n base, and — with one unfiltered and one filtering project —
+    `missing` counted by the union and the first observer only (the second ignores `de/new`), `changed` by all -/
+example :
+    let r := compareProjects exWorld [{ exProject with filter := fun _ _ => .error }, exProject]
+      { locales := [], l10nBaseDir := ofString "/l" }
+    r.toOption.map (fun st => st.calls.map (fun c => (c.kind, c.l10n.file, c.l10n.locale)))
+      = some [(.compare, ofString "de/a", some [100, 101]), (.remove, ofString "de/gone", some [100, 101]),
+              (.add, ofString "de/new", some [100, 101])] ∧
+    r.toOption.map (fun st => [getCount st.obs.own.summary (some [100, 101]) .missing,
+        getCount st.obs.own.summary (some [100, 101]) .changed]) = some [3, 2] ∧
+    r.toOption.map (fun st => st.obs.observers.map (fun o => [getCount o.summary (some [100, 101]) .missing,
+        getCount o.summary (some [100, 101]) .changed])) = some [[3, 2], [0, 2]] := by
+  decide +kernel
+
+/-- validation mode on the same world: the enumeration of `None`, the displayed locale is `REFERENCE_LOCALE` -/
+example :
+    let r := compareProjects { exWorld with projectFiles := fun
+        | none => .ok { matchers := [], items := [{ l10n := ofString "/r/a", ref := some (ofString "/r/a"), merge := none, tests := [] },
+                                                  { l10n := ofString "/r/new", ref := some (ofString "/r/new"), merge := none, tests := [] }] }
+        | some _ => .error (.external "unexpected") } [exProject]
+      { locales := [none], l10nBaseDir := ofString "/l" }
+    r.toOption.map (fun st => st.calls.map (fun c => (c.kind, c.l10n.file, c.l10n.locale)))
+      = some [(.compare, ofString "../r/a", some Gen.Cmd.referenceLocale), (.compare, ofString "../r/new", some Gen.Cmd.referenceLocale)] ∧
+    r.toOption.map (fun st => st.obs.observers.map (·.filter.isSome)) = some [false] := by
+  decide +kernel
+
+/-- a path rule with a `module` (legacy l10n.ini) before a plain one: the module file is keyed by its path below the
+    matcher prefix and carries the module, the plain file after it carries NO module and its path below the l10n base -/
+example :
+    let r := compareProjects { exWorld with
+        projectFiles := fun _ => .ok {
+          matchers := [{ l10nMatch := fun p => (ofString "/l/de/app/").isPrefixOf p, l10nPrefix := ofString "/l/de/app/",
+                         module := some (ofString "app"), hasMerge := false },
+                       { l10nMatch := fun p => (ofString "/l/de/zother/").isPrefixOf p, l10nPrefix := ofString "/l/de/zother/",
+                         module := none, hasMerge := false }],
+          items := [{ l10n := ofString "/l/de/app/a", ref := some (ofString "/r/a"), merge := none, tests := [] },
+                    { l10n := ofString "/l/de/zother/b", ref := some (ofString "/r/a"), merge := none, tests := [] }] }
+        pathExists := fun _ => true } [exProject] { locales := [some [100, 101]], l10nBaseDir := ofString "/l" }
+    r.toOption.map (fun st => st.calls.map (fun c => (c.l10n.module, c.l10n.file)))
+      = some [(some (ofString "app"), ofString "a"), (none, ofString "de/zother/b")] := by
+  decide +kernel
+
+/-- `None` next to a `str` in `locales`: `sorted` raises `TypeError` (the excluded case of `projects_validation`) -/
+example : (match compareProjects exWorld [exProject] { locales := [none, some [100, 101]], l10nBaseDir := ofString "/l" } with
+    | .error (e, _) => some e | .ok _ => none) = some .typeError := by decide +kernel
+
+/-- a localized file without reference path (a path rule without `reference`): `os.path.exists(None)` raises -/
+example : (match compareProjects { exWorld with projectFiles := fun _ => .ok { matchers := [], items :=
+        [{ l10n := ofString "/l/de/a", ref := none, merge := none, tests := [] }] } } [exProject]
+      { locales := [some [100, 101]], l10nBaseDir := ofString "/l" } with
+    | .error (e, _) => some e | .ok _ => none) = some .typeError := by decide +kernel
+
+/-- `--clobber-merge` with a merge stage: `{_m.get("merge") for _m in files.matchers}` hashes a `Matcher` — `TypeError`
+    before anything is compared -/
+example : (match compareProjects { exWorld with projectFiles := fun _ => .ok { matchers :=
+        [{ l10nMatch := fun _ => true, l10nPrefix := ofString "/l/de/", module := none, hasMerge := true }], items := [] } }
+      [exProject] { locales := [some [100, 101]], l10nBaseDir := ofString "/l", mergeStage := some (ofString "/m"),
+                    clobberMerge := true } with
+    | .error (e, _) => some e | .ok _ => none) = some .typeError := by decide +kernel
+
+/-- why `projects_file_events_once` / `projects_refine_history` ask for `CompareRuns`: a `compare` that itself raised a
+    `missingFile` notification would put a second kind of file event into the history — here the only call is a
+    `compare`, yet the details show a missing file -/
+example : (compareProjects { exWorld with
+        projectFiles := fun _ => .ok { matchers := [], items :=
+          [{ l10n := ofString "/l/de/a", ref := some (ofString "/r/a"), merge := none, tests := [] }] }
+        compareBody := fun c j l => match l.notify .missingFile c.l10n .none with
+          | .ok (l', _) => .ok (l', [], j)
+          | .error e => .error (.observer e) }
+      [{ exProject with filter := fun _ _ => .error }] { locales := [some [100, 101]], l10nBaseDir := ofString "/l" }).toOption.map
+      (fun st => (st.calls.map (·.kind), (toJSON st.obs.own.details).leaves.map (fun kv => kv.2.map (·.1))))
+    = some ([.compare], [[.missingFile]]) := by decide +kernel
+
+/-- why `projects_quiet_hides_only_details` asks for `CompareSync`: a `compare` that peeked at the details tree (which
+    the quiet level does change) could count differently at two quiet levels — here it counts a changed string only
+    while no details are stored, and the obsolete file handled before it is stored at quiet 0 but not at quiet 2 -/
+example :
+    let w : World := { exWorld with
+      projectFiles := fun _ => .ok { matchers := [], items :=
+        [{ l10n := ofString "/l/de/gone", ref := some (ofString "/r/gone"), merge := none, tests := [] },
+         { l10n := ofString "/l/de/a", ref := some (ofString "/r/a"), merge := none, tests := [] }] }
+      compareBody := fun c j l =>
+        if (toJSON l.own.details).leaves.isEmpty then .ok (l.updateStats c.l10n [(.changed, 1)], [], j) else .ok (l, [], j) }
+    let run (q : Nat) := (compareProjects w [{ exProject with filter := fun _ _ => .error }]
+      { locales := [some [100, 101]], l10nBaseDir := ofString "/l", quiet := q }).toOption.map
+        (fun st => getCount st.obs.own.summary (some [100, 101]) .changed)
+    run 0 = some 0 ∧ run 2 = some 1 := by
+  decide +kernel
+
+/-- the world of `handle` for the examples: `/l` is the only directory, `/a.toml` and `/b.toml` the only files -/
+def exHWorld (body : Call → Nat → ObsList → Except ProjM.PyErr (ObsList × List Text × Nat)) : HWorld where
+  fs := { isdir := fun x => x == ofString "/l", isfile := fun x => x == ofString "/a.toml" || x == ofString "/b.toml" }
+  cwd := [47]
+  loadConfigs := fun _ _ _ _ => .ok ([{ exProject with filter := fun _ _ => .error }, exProject],
+                                      { exWorld with compareBody := body })
+
+def exHArgs : HArgs := { configPaths := [ofString "/a.toml", ofString "/b.toml"], l10nBaseDir := ofString "/l" }
+
+/-- `handle` end to end on `exWorld`: two config files, so the header is printed (details, blank line, `Summaries for`,
+    two config lines, the union line, the summaries); exit status 0 (no error was counted) — and 1 as soon as `compare`
+    counts an error; a config argument that is not a file ends in `parser.error` -/
+example : (handle (exHWorld exWorld.compareBody) exHArgs).outcome = .returned 0 ∧
+    (handle (exHWorld exWorld.compareBody) exHArgs).stdout.drop 1 =
+      [[], ofString "Summaries for", ofString "  /a.toml", ofString "  /b.toml",
+       ofString "    and the union of these, counting each string once",
+       ofString "de:\nmissing           3             3\nmissing_w         5             5\nchanged           2      2      2\n40% of entries changed"] ∧
+    (handle (exHWorld (fun c j l => match l.notify .error c.l10n (.str [109]) with
+        | .ok (l', _) => .ok (l', [], j)
+        | .error e => .error (.observer e))) exHArgs).outcome = .returned 1 ∧
+    (handle (exHWorld exWorld.compareBody) { exHArgs with configPaths := [ofString "/a.toml", ofString "/nope.toml"] }).outcome
+      = .usage (ofString "config file /nope.toml not found") := by
+  decide +kernel
+
+/-- `mozpath.relpath` / `abspath` on the shapes `compareProjects` meets: below the base, beside it (validation mode),
+    the base itself, a prefix that ends inside a file name, `..` and doubled slashes in the arguments -/
+example : (relpath [47] (ofString "/l/de/browser/a.ftl") (ofString "/l")).toOption = some (ofString "de/browser/a.ftl") ∧
+    (relpath [47] (ofString "/r/en/a.ftl") (ofString "/l")).toOption = some (ofString "../r/en/a.ftl") ∧
+    (relpath [47] (ofString "/l") (ofString "/l/")).toOption = some [] ∧
+    (relpath [47] (ofString "/l/de/bar.ftl") (ofString "/l/de/ba")).toOption = some (ofString "../bar.ftl") ∧
+    (relpath (ofString "/cwd") (ofString "x/../y//z") (ofString ".")).toOption = some (ofString "y/z") ∧
+    abspath (ofString "/cwd") (ofString "l10n/") = ofString "/cwd/l10n" ∧
+    abspath (ofString "/cwd") (ofString "//x/./y/..") = ofString "//x" := by decide +kernel
+
+end ProjectsExamples
 
 end C10
